@@ -42,14 +42,19 @@ func c14(r *core.Run) {
 	runDrivers(r, thriftrw, "safe", uint64(r.Pick(60, 1500)), 30, nil, nil, []driverMon{
 		{name: "c14", cases: func(t, c, f int) uint64 { return uint64(t) * per }},
 	})
+	vchild := r.GoBuild("vchild", "./cmd/vchild")
+	r.RunChildren(core.ChildSpec{Bin: vchild, Monitor: "c14wire", Stream: "wire", From: 0, To: uint64(r.Pick(300000, 6000000)), Prefix: "wire_"})
 	if !r.Replay {
+		r.Require("wire_cases", 10000)
+		r.Require("wire_mutated_pairs", 1000)
+		r.Require("c14_wire_reuse_checks", 300)
 		r.Require("c14_cases", 1000)
 		r.Require("c14_perturbed_pairs", 300)
 		r.Require("c14_nil_checks", 300)
 	}
-	r.Set("evaluations", r.Get("c14_cases"))
+	r.Set("evaluations", r.Get("c14_cases")+r.Get("wire_cases"))
 	r.Assumption("values are obtained by decoding, free of NaN, with duplicate-free sets and map keys; the independent comparison is LKey equality of the logical values with defaults filled (unordered sets/maps, == on doubles, unset != zero, absent != empty)")
-	r.FinishStd("struct-like generated types of valid random programs; per type 80/400 triples (x, y = permuted re-encoding of x, z = x with one leaf/presence/length/order perturbation), each decoded through a random path: reflexivity, symmetry, transitivity over the triple, x.Equals(z) = wire.ValuesAreEqual(x.ToWire(), z.ToWire()) = independent structural comparison, no panic on nil receiver or argument. distinct by (type, bytes)", "c14_cases")
+	r.FinishStd("struct-like generated types of valid random programs; per type 80/400 triples (x, y = permuted re-encoding of x, z = x with one leaf/presence/length/order perturbation), each decoded through a random path: reflexivity, symmetry, transitivity over the triple, x.Equals(z) = wire.ValuesAreEqual(x.ToWire(), z.ToWire()) = independent structural comparison, no panic on nil receiver or argument; plus pairs of arbitrary wire values (duplicate-free, NaN-free; shuffled and single-leaf-mutated copies) for wire.ValuesAreEqual against CanonKey equality, repeated and swapped on the same value objects. distinct by (type, bytes)", "c14_cases")
 }
 
 func c15(r *core.Run) {
